@@ -251,7 +251,7 @@ func init() {
 	register(&Check{
 		ID: "C12", Level: "exploration", Configs: []string{"clean", "foreign"},
 		Run:         runC12,
-		QuickRuns:   120_000,
+		QuickRuns:   1_000_000,
 		ThoroughSec: 480,
 		Rule: "config clean: a real VP9Payloader (flexible / non-flexible, InitialPictureIDFn from the tape biased to 0x7FFF-k) streams 1-40 frames whose uncompressed header is written by an " +
 			"independent bit writer (profiles 0-3, key/non-key, all 8 colour spaces, 16-bit sizes over the full range) to a long-lived real VP9Packet over a FIFO wire; config foreign: " +
